@@ -142,6 +142,13 @@ def lattice(tier: str) -> list[tuple]:
             specs.append(("F", lo, hi, None, True))
     specs += [("F", "1", "1.000000001", None, True), ("F", "1", "1.0000001", None, True),
               ("F", "0.999999999", "1", None, True)]
+    # tiny / huge magnitudes and ranges far narrower than their magnitude (the statement's "tiny/huge
+    # ranges"): absolute margins, epsilons and overflow-prone arithmetic show here
+    specs += [("F", "1e-20", "2e-20", None, False), ("F", "0", "1e-300", None, False), ("F", "-3e-17", "-1e-17", None, False),
+              ("F", "1e300", "1.5e300", None, False), ("F", "-1e150", "1e150", None, False),
+              ("F", "1000", "1000.0000000001", None, False), ("F", "-1e-9", "1e-9", "5e-10", False),
+              ("F", "1e-300", "1e-299", None, True), ("F", "1e-20", "2e-20", None, True), ("F", "1e299", "1e300", None, True),
+              ("I", -10**15, 10**15, 1, False), ("I", 10**15, 10**15 + 3, 1, False), ("I", 10**12, 10**15, 1, True)]
     # ints
     ivals = sorted({int(Fraction(v)) for v in vals if Fraction(v).denominator == 1})
     for i, lo in enumerate(ivals):
@@ -343,11 +350,15 @@ def shifted_dist(dom: Dom, far: bool = False) -> Any:
             f = 2.0
         if far:
             f = math.exp(min(400 * math.log(f), math.log(1e60)))
+        if dom.high * f > 1e305:
+            f = 1.0 / f  # stay finite: shift down instead of up
         return FloatDistribution(dom.low * f, dom.high * f, log=True)
     w = dom.top - dom.low
     sh = w / 2 if w > 0 else max(abs(dom.low), 1.0) / 2
     if far:
         sh *= 2000
+    if not math.isfinite(dom.top + sh) or abs(dom.top + sh) > 1e305:
+        sh = -sh
     return FloatDistribution(dom.low + sh, dom.top + sh, step=dom.step)
 
 
